@@ -147,6 +147,45 @@ theorem checkReplies_keeps_own {mail data : Nat} {rcpts : List Nat} {r : Result}
         exact ⟨x, hxm, by simp [hxe]⟩, rfl⟩
     · simp at h
 
+theorem readCodes_map_code (cs : List Nat) : readCodes (cs.map Out.code) = some cs := by
+  induction cs with
+  | nil => rfl
+  | cons c rest ih => simp [readCodes, readCode, ih]
+
+/-- **An accepted sender and a next hop that answers everything: a refused recipient ends with the class of its own reply**, whatever
+    becomes of the rest of the transaction (every recipient refused, DATA refused, the message refused after the data, or the others
+    delivered): RCPT 4xx is "try again later" for that recipient, RCPT 5xx is "failed for good" — SMTP, with and without PIPELINING. -/
+theorem deliver_keeps_own_class (cfg : Cfg) (hl : cfg.lmtp = false) (s : Script) (mail data eod : Nat) (rc : List Nat)
+    (hm : s.mail = .code mail) (hr : s.rcpts = rc.map .code) (hd : s.data = .code data) (he : s.eod = .code eod)
+    (hconv : ((!s.eightBit && cfg.body8bit && !cfg.hasEncoder) || (cfg.utf8Addr && !s.smtputf8)) = false)
+    (hmail : isError mail = false) (i : Nat) (c : Nat) (hc : rc[i]? = some c) (hce : isError c = true) :
+    clsOf (deliver cfg s) i = some (factory c) := by
+  simp only [deliver, hconv, Bool.false_eq_true, if_false, hm, readCode, hmail, Bool.and_false, hr, readCodes_map_code, hd, hl, he]
+  cases hcr : checkReplies mail rc data with
+  | inl r => exact checkReplies_keeps_own hmail hcr i c hc hce
+  | inr per =>
+    obtain ⟨_, _, hper⟩ := checkReplies_inr hcr
+    simp only
+    have hown : (ownClasses rc)[i]? = some (some (factory c)) := by simp [ownClasses, List.getElem?_map, hc, hce]
+    split
+    · -- the message was refused after the data: `_fail` with somebody who had been accepted
+      apply fail_keeps_own _ _ i _ hown (factory_not_ok _) (factory_not_ok _)
+      have hnall : ¬ (rc.all isError = true) := by
+        intro hall
+        simp only [checkReplies, hmail, Bool.false_eq_true, if_false, hall, if_true] at hcr
+        simp at hcr
+      have : ∃ x ∈ rc, isError x = false := by
+        by_cases hx : ∃ x ∈ rc, isError x = false
+        · exact hx
+        · exfalso; apply hnall
+          simp only [not_exists, not_and, Bool.not_eq_false] at hx
+          exact List.all_eq_true.mpr hx
+      obtain ⟨x, hxm, hxe⟩ := this
+      exact List.mem_map.mpr ⟨none, by
+        simp only [ownClasses, List.mem_map]
+        exact ⟨x, hxm, by simp [hxe]⟩, rfl⟩
+    · simp [clsOf, hper, List.getElem?_map, hc, hce]
+
 /-- **SMTP: delivered only if accepted.** If recipient `i` is reported delivered, the script gave
     a well-formed, non-error reply to its RCPT, to MAIL, to DATA and to the message data. -/
 theorem smtp_delivered_only_if_accepted (cfg : Cfg) (hl : cfg.lmtp = false) (s : Script) (i : Nat)
